@@ -497,31 +497,23 @@ def proof_obligations(ctx, prop, theorems, allowed_axioms=frozenset()):
     when a theorem no longer checks."""
     ok, log = build_coq()
     if not ok:
-        # which file failed?
-        m = re.search(r'File "\./([^"]+)", line (\d+)', log)
-        ctx.violation("proof-build", {"kind": "proof build failure", "file": m.group(1) if m else None,
-                                      "log_tail": log[-4000:],
-                                      "theorem_or_correspondence": "coq build (make) of the development"},
-                      no_input=True)
-        return {"obligations": len(theorems), "discharged": 0,
-                "checker_cmd": "make -C coq (coqc 8.16.1, full .vo build)", "trusted_base": TRUSTED_BASE}
+        # the development is hand-written and does not depend on the repository: a proof that no
+        # longer builds is a defect of the machinery itself, never a property violation
+        raise Broken("the Coq development does not build:\n" + log[-4000:])
     bad = check_forbidden()
     if bad:
-        ctx.violation("forbidden", {"kind": "forbidden keyword in development", "where": bad,
-                                    "theorem_or_correspondence": "axiom-free development"}, no_input=True)
+        raise Broken("forbidden keyword in the development: %s" % bad)
     src = strip_coq_comments(open(os.path.join(COQ, "Properties", prop + ".v")).read())
     discharged = 0
     for t in theorems:
         if not re.search(r"\bTheorem\s+%s\b" % re.escape(t), src) or not re.search(r"\bCheck\s+%s\s*:" % re.escape(t), src):
-            ctx.violation("unpinned-" + t, {"kind": "theorem missing or statement not pinned", "theorem_or_correspondence": t}, no_input=True)
+            raise Broken("theorem %s is missing from Properties/%s.v or its statement is not pinned with Check" % (t, prop))
     ass = print_assumptions(prop, theorems)
     for t in theorems:
         extra = ass[t] - set(allowed_axioms)
         if extra:
-            ctx.violation("axioms-" + t, {"kind": "theorem depends on axioms outside the allow-list",
-                                          "theorem_or_correspondence": t, "axioms": sorted(extra)}, no_input=True)
-        else:
-            discharged += 1
+            raise Broken("theorem %s depends on axioms outside the allow-list: %s" % (t, sorted(extra)))
+        discharged += 1
     return {"obligations": len(theorems), "discharged": discharged,
             "theorems": list(theorems),
             "axioms_used": {t: sorted(a) for t, a in ass.items() if a},
